@@ -162,6 +162,35 @@ def corrupt_wedge(run):
     return None
 
 
+def corrupt_bulk_order(run):
+    """a bulk rank call asked in descending order answered as if the list had been ascending"""
+    for e in run:
+        if e.get("op") == "rank" and not e.get("all") and "<desc>" in e.get("api", "") and len(set(e["r"])) > 2:
+            e["r"] = sorted(e["r"])
+            return run
+    return None
+
+
+def corrupt_bulk_select_order(run):
+    for e in run:
+        if e.get("op") == "select_batch" and e.get("ok") and "<shuffled>" in e.get("api", "") and len(set(e["r"])) > 2:
+            e["r"] = sorted(e["r"])
+            return run
+    return None
+
+
+def corrupt_wselect_batch(run):
+    for e in run:
+        if e.get("op") == "wselect_batch" and e.get("ok") and len(e["r"]) > 2:
+            r = list(e["r"])
+            r[0], r[1] = r[1], r[0]
+            if r == e["r"]:
+                continue
+            e["r"] = r
+            return run
+    return None
+
+
 def _files(s):
     return sorted(glob.glob(os.path.join(s["_out"], "*.ndjson")))
 
@@ -209,6 +238,9 @@ def run(ctx):
     fw = _first_file_of(files, "bmi2a:words")
     ctx.selftest_corrupt(TRACE, fw, corrupt_wrange, "ones of one bit range of a word changed by +1")
     ctx.selftest_corrupt(TRACE, fw, corrupt_wedge, "trailing zero count of a word changed by +1")
+    ctx.selftest_corrupt(TRACE, fw, corrupt_bulk_order, "bulk rank asked in descending order answered in ascending order")
+    ctx.selftest_corrupt(TRACE, fw, corrupt_bulk_select_order, "bulk select asked in shuffled order answered in ascending order")
+    ctx.selftest_corrupt(TRACE, fw, corrupt_wselect_batch, "two answers of a multi-index word select swapped")
     # --- evidence
     cov = ctx.cov
     cov["evaluations"] = s.get("answers", 0)
@@ -243,7 +275,9 @@ def run(ctx):
                    "set_range_simd, bulk_bitwise_op_simd, reserve/clone/== ; TLC computes the bit string from the logged calls, "
                    "len and count_ones are judged after every call, the BitVector-only subject is probed in full after every "
                    "call, and every rank/select family is then built from the resulting vector).  Counted when at least one batch of answers was recorded and judged; "
-                   "every case carries the answers for EVERY position 0..=len and EVERY k in 0..=len (k >= count must be refused)"
+                   "every case carries the answers for EVERY position 0..=len and EVERY k in 0..=len (k >= count must be refused); "
+                   "every bulk / batch / multi-range entry point is additionally asked descending, shuffled, duplicated, far-apart, "
+                   "same-block, end-point and empty lists and lists with one invalid k, judged element by element in the order asked"
                    "%s.  evaluations = individual (position, answer) pairs judged by TLC against the TLA+ definition."
                    % ((", all lengths 0..1100, 65534..65538" if ctx.thorough else ""),
                       ("; for the 65536-bit vectors positions are all multiples of 64 +-1 plus 2000 random ones" if ctx.thorough else "")))
